@@ -78,7 +78,9 @@ def firm_grid(ctx):
             for a in (0.25, 0.7):
                 st, r = core.call_impl(CAT.firm, f, o, a, [t], [1.0], discount_distance=d, preserve_dims="all", threshold_assignment=assign)
                 if st != "ok":
-                    ctx.tie_fail("firm raised on the tie grid", {"assign": assign, "d": d, "alpha": a}, r, "values")
+                    ctx.violation("firm raises on valid inputs (tie grid: fcst/obs/threshold in {0,1,2,NaN})",
+                                  {"fcst": [c[0] for c in cases], "obs": [c[1] for c in cases], "threshold": [c[2] for c in cases],
+                                   "threshold_assignment": assign, "discount_distance": d, "risk_parameter": a}, "values", r)
                     return
                 impl_cache[(assign, d, a)] = r
                 for k, (fv, ov, tv) in enumerate(cases):
@@ -260,27 +262,15 @@ def firm_full(ctx):
         if impl[0] != "ok":
             continue
         r = impl[1]
-        # firm_score = overforecast + underforecast per case (before averaging)
-        if c["w"] is None:
+        # firm_score = overforecast + underforecast per case (before averaging); reduced = NaN-skipping mean of weight * per-case
+        if True:
             st, pc = core.call_impl(CAT.firm, c["fcst"], c["obs"], float(c["alpha"]), c["ths"], c["wts"], discount_distance=float(c["d"]),
                                     threshold_assignment=c["assign"], preserve_dims="all")
             if st == "ok":
+                for v in FVARS:
+                    check_mean_of_cases(ctx, "firm " + v, pc[v], c["w"], r[v], desc)
                 if not np.allclose(pc["firm_score"].values, (pc["overforecast_penalty"] + pc["underforecast_penalty"]).values, rtol=0, atol=1e-9, equal_nan=True):
                     ctx.violation("firm_score != overforecast_penalty + underforecast_penalty", desc, "sum", str(pc["firm_score"].values.tolist())[:200])
-                # = sum_j w_j * Murphy elementary score at theta = threshold_j (lower assignment, scalar thresholds, finite discount)
-                if c["assign"] == "lower" and c["d"] != INF and all(not isinstance(t, xr.DataArray) for t in c["ths"]) and rng.random() < 0.5:
-                    tot = 0
-                    for t, wt in zip(c["ths"], c["wts"]):
-                        fn = "quantile" if c["d"] == 0 else "huber"
-                        mu = CON.murphy_score(c["fcst"], c["obs"], [t], functional=fn, alpha=float(c["alpha"]),
-                                              huber_a=float(c["d"]) if c["d"] else None, preserve_dims="all")["total"].sel(theta=t, drop=True)
-                        tot = tot + wt * mu
-                    a, b = xr.broadcast(pc["firm_score"], tot)
-                    b = b.transpose(*a.dims)
-                    ctx.count("firm:murphy_link_checked")
-                    if not np.allclose(a.values, b.values, rtol=0, atol=1e-9, equal_nan=True):
-                        ctx.violation("firm_score != sum_j w_j * Murphy elementary score at the thresholds", desc, str(b.values.tolist())[:200],
-                                      str(a.values.tolist())[:200])
     # documented: discount_distance=None means no discounting
     c = None
     for _ in range(50):
@@ -297,6 +287,58 @@ def firm_full(ctx):
             if not okk:
                 ctx.violation("firm(discount_distance=None) is documented to mean no discounting", dict(firm_desc(c), discount_distance=None),
                               "same as discount_distance=0", str(got[1])[:120], finding_key="firm-discount-none")
+
+
+def check_mean_of_cases(ctx, fn, per_case, weights, result, desc):
+    x = per_case if weights is None else per_case * weights
+    red = [d for d in x.dims if d not in result.dims]
+    exp = x.mean(dim=red) if red else x
+    try:
+        exp = exp.transpose(*result.dims)
+        ok = bool(np.allclose(np.asarray(result), np.asarray(exp), rtol=0, atol=1e-9, equal_nan=True))
+    except ValueError:
+        ok = False
+    if not ok:
+        ctx.violation(fn + ": reduced result is not the NaN-skipping mean of weight * per-case score over the reduced dimensions", desc,
+                      str(np.asarray(exp).tolist())[:200], str(np.asarray(result).tolist())[:200])
+
+
+def firm_murphy_sum(ctx):
+    """firm (lower) per case = sum_j w_j * Murphy elementary score at theta = threshold_j, on the implementation"""
+    CAT, CON, _ = S()
+    rng = ctx.rng
+    grid = [Fraction(k, 2) for k in range(-4, 5)]
+    for i in range(ctx.n(40, 400)):
+        if not ctx.time_left():
+            break
+        sizes = gens.rand_sizes(rng, names=["a", "b"], maxdims=2, maxsize=3)
+        fcst = gens.rand_da(rng, sizes, values=grid, nan_p=rng.choice([0.0, 0.15]))
+        odims = gens.sub_dims(rng, sizes, p_drop=0.25)
+        obs = gens.rand_da(rng, sizes, dims=odims, values=grid, nan_p=rng.choice([0.0, 0.15]))
+        k = rng.randint(1, 3)
+        ths = [float(t) for t in rng.sample(grid, k)]
+        wts = [float(rng.choice([Fraction(1, 2), 1, 2, 3])) for _ in range(k)]
+        alpha = float(rng.choice([Fraction(1, 4), Fraction(1, 2), Fraction(7, 10)]))
+        d = rng.choice([0, Fraction(1, 2), 1, 2])
+        st, pc = core.call_impl(CAT.firm, fcst, obs, alpha, ths, wts, discount_distance=float(d), preserve_dims="all")
+        desc = {"fn": "firm vs murphy_score", "fcst": gens.da_repr(fcst), "obs": gens.da_repr(obs), "risk_parameter": alpha,
+                "categorical_thresholds": ths, "threshold_weights": wts, "discount_distance": d}
+        ctx.case(desc, st == "ok")
+        ctx.count("firm:murphy_link_checked")
+        if st != "ok":
+            ctx.violation("firm raised on a valid call", desc, "values", pc)
+            continue
+        for var, mvar in zip(FVARS, ("total", "overforecast", "underforecast")):
+            tot = 0
+            for t, wt in zip(ths, wts):
+                mu = CON.murphy_score(fcst, obs, [t], functional="quantile" if d == 0 else "huber", alpha=alpha,
+                                      huber_a=float(d) if d else None, decomposition=True, preserve_dims="all")[mvar].sel(theta=t, drop=True)
+                tot = tot + wt * mu
+            a, b = xr.broadcast(pc[var], tot)
+            b = b.transpose(*a.dims)
+            if not np.allclose(a.values, b.values, rtol=0, atol=1e-9, equal_nan=True):
+                ctx.violation(f"firm {var} != sum_j w_j * Murphy elementary score ({mvar}) at the thresholds", desc, str(b.values.tolist())[:200],
+                              str(a.values.tolist())[:200])
 
 
 # ------------------------------------------------------------------------------------------
@@ -316,7 +358,8 @@ def rms_grid(ctx):
                 dw = xr.DataArray([[wv]], dims=["prob", "sev"], coords={"prob": [p], "sev": [0]})
                 st, r = core.call_impl(EM.risk_matrix_score, f, o, dw, "sev", "prob", threshold_assignment=assign, preserve_dims="all")
                 if st != "ok":
-                    ctx.tie_fail("risk_matrix_score raised on the cell grid", {"assign": assign, "p": p}, r, "values")
+                    ctx.violation("risk_matrix_score raises on valid inputs (forecast probabilities in {0,1/4,1/2,3/4,1,NaN}, obs in {0,1,NaN})",
+                                  {"fcst": fvals, "obs": ovals, "prob_threshold": p, "weight": wv, "threshold_assignment": assign}, "values", r)
                     return
                 for k, (fv, ov) in enumerate(cases):
                     rows = enc_list([enc_list([enc_num(fv), enc_num(ov), enc_list([enc_list([enc_num(p), enc_num(wv)])])])])
@@ -468,6 +511,7 @@ def rms_full(ctx):
         if rng.random() < 0.5:
             st, pc = core.call_impl(EM.risk_matrix_score, c["fcst"], c["obs"], c["dw"], "sev", "prob", threshold_assignment=c["assign"], preserve_dims="all")
             if st == "ok":
+                check_mean_of_cases(ctx, "risk_matrix_score", pc, c["w"], impl[1], desc)
                 f, o = xr.broadcast(c["fcst"], c["obs"])
                 other = [d for d in pc.dims]
                 pts = list(itertools.product(*[list(pc[d].values) for d in other]))
@@ -656,10 +700,38 @@ def wfs_check(ctx):
         ctx.violation("weights_from_warning_scaling accepted a float-typed scaling matrix", {"scaling_matrix": [[0.0, 1.0], [0.0, 0.0]]}, "err:ValueError", str(st[1])[:100])
 
 
+def guard_boundaries(ctx):
+    """documented argument checks at their boundaries, on the implementation (the guards themselves belong to C20; here they delimit
+    the domain on which the sums are claimed)"""
+    CAT, _, EM = S()
+    f = xr.DataArray([0.0, 1.0, 2.0], dims=["x"])
+    o = xr.DataArray([1.0, 1.0, 0.0], dims=["x"])
+    for kw, must_raise in (({"a": 0.0}, True), ({"a": 1.0}, True), ({"a": 1e-9}, False), ({"a": 1 - 1e-9}, False), ({"a": 0.5, "d": -0.5}, True),
+                           ({"a": 0.5, "d": 0.0}, False), ({"a": 0.5, "w": 0.0}, True), ({"a": 0.5, "w": -1.0}, True), ({"a": 0.5, "s": "middle"}, True)):
+        got = core.call_impl(CAT.firm, f, o, kw["a"], [1.0], [kw.get("w", 1.0)], discount_distance=kw.get("d", 0.0), threshold_assignment=kw.get("s", "lower"))
+        ctx.case(("firm_guard", str(kw)), nontrivial=True)
+        if (got[0] == "err") != must_raise or (must_raise and got[1] != "err:ValueError"):
+            ctx.violation("firm argument check at its boundary", {"fcst": [0, 1, 2], "obs": [1, 1, 0], "thresholds": [1.0], **kw},
+                          "err:ValueError" if must_raise else "a value", str(got[1])[:100])
+    dw = lambda ps: xr.DataArray([[1.0]] * len(ps), dims=["prob", "sev"], coords={"prob": ps, "sev": [0]})
+    mk = lambda v: xr.DataArray([[x] for x in v], dims=["t", "sev"], coords={"t": range(len(v)), "sev": [0]})
+    for fv, ov, ps, must_raise in (([0.0, 1.0], [0.0, 1.0], [0.5], False), ([0.0, 1.25], [0.0, 1.0], [0.5], True), ([-0.25, 1.0], [0.0, 1.0], [0.5], True),
+                                   ([0.0, 1.0], [0.0, 0.5], [0.5], True), ([0.0, 1.0], [0.0, 1.0], [0.0, 0.5], True), ([0.0, 1.0], [0.0, 1.0], [0.5, 1.0], True),
+                                   ([0.0, 1.0], [0.0, float("nan")], [0.001, 0.999], False)):
+        got = core.call_impl(EM.risk_matrix_score, mk(fv), mk(ov), dw(ps), "sev", "prob")
+        ctx.case(("rms_guard", str((fv, ov, ps))), nontrivial=True)
+        if (got[0] == "err") != must_raise or (must_raise and got[1] != "err:ValueError"):
+            ctx.violation("risk_matrix_score argument check at its boundary", {"fcst": fv, "obs": ov, "prob_thresholds": ps},
+                          "err:ValueError" if must_raise else "a value", str(got[1])[:100])
+    ctx.count("guard_boundary_probes", 16)
+
+
 def run(ctx):
+    guard_boundaries(ctx)
     firm_grid(ctx)
     rms_grid(ctx)
     firm_full(ctx)
+    firm_murphy_sum(ctx)
     rms_full(ctx)
     mwa_check(ctx)
     wfs_check(ctx)
